@@ -130,6 +130,10 @@ def ensure_facts(root=None, config='default', cargo_args=None, quiet=False):
     out = os.path.join(CACHE, 'facts', key)
     done = os.path.join(out, 'DONE')
     if os.path.exists(done):
+        try:
+            os.utime(out, None)   # LRU: the collector removes the least recently used directories
+        except OSError:
+            pass
         return out
     lock = open(os.path.join(CACHE, 'lock'), 'w')
     fcntl.flock(lock, fcntl.LOCK_EX)
